@@ -23,4 +23,4 @@ For each change i in 1..3 write, under {wt}/../out_{pid}/change_i/ :
   - patch.diff      : `git diff` of that change alone against the worktree HEAD (apply it, save the diff, then `git checkout -- .` before starting the next one)
   - demo.py         : a small standalone program (run as `/venv/bin/python demo.py` with cwd = the repository root so that it imports that tree's geostructures; insert `import sys; sys.path.insert(0, '.')` at the top) that exits 0 on the UNCHANGED tree and exits 1 (printing what went wrong) when the change is applied — it must demonstrate a violation of the property statement itself, not merely that the code differs
   - meta.json       : {{"property": "{pid}", "summary": "...", "needs": "what specific input/sequence is needed for it to manifest", "files": [...], "tests_pass": true}}
-Verify (a), (b), (c) yourself for each change: run the unit tests with the change applied, run demo.py with and without it. Leave the worktree clean (`git checkout -- .`) when done. Final answer: a 5-line summary of the three changes.""")
+Verify (a), (b), (c) yourself for each change: run the unit tests with the change applied, run demo.py with and without it. Never use `git stash` (the stash is shared between worktrees of one repository and other agents work in sibling worktrees): save each patch to a file and use `git apply` / `git apply -R` / `git checkout -- .` instead. Leave the worktree clean (`git checkout -- .`) when done. Final answer: a 5-line summary of the three changes.""")
